@@ -75,6 +75,7 @@ func init() {
 		ergoPath + ".zzHavoc":   mHavoc,
 		ergoPath + ".zzBytes":   mNondetBytes,
 		ergoPath + ".zzNote":    func(ex *Exec, c *callCtx) Value { return nil },
+		ergoPath + ".zzPinRand": func(ex *Exec, c *callCtx) Value { return nil },
 		ergoPath + ".zzReplayFrom": mReplayFrom,
 		ergoPath + ".deriveTitleAndBodyFromLegacy": func(ex *Exec, c *callCtx) Value {
 			b := c.args[0].(StrV)
@@ -564,7 +565,18 @@ func mTimeParse(ex *Exec, c *callCtx) Value {
 	return TupleV{E: []Value{TimeV{Ite(ok, val, IntC(0))}, MergeV(ok, NilRef(), e)}}
 }
 
+var parseMemo = map[*Term][2]*Term{}
+
 func parsePush(t *Term) (*Term, *Term) {
+	if r, ok := parseMemo[t]; ok {
+		return r[0], r[1]
+	}
+	a, b := parsePush1(t)
+	parseMemo[t] = [2]*Term{a, b}
+	return a, b
+}
+
+func parsePush1(t *Term) (*Term, *Term) {
 	if t.op == "uf:timefmt" {
 		return True, t.args[0]
 	}
